@@ -1001,14 +1001,15 @@ static int sufficientCondition(std::string op1, const bool not1, const T value1,
             res = -1;
         else if (op2 == "==")
             res = 1;
+        // in this branch a positive result says that the first condition is the weaker one
         else if (op1 == ">" && op2 == ">=")
-            res = sign(value1 - (value2 - 1));
+            res = -sign(value1 - (value2 - 1));
         else if (op1 == ">=" && op2 == ">")
-            res = sign((value1 - 1) - value2);
+            res = -sign((value1 - 1) - value2);
         else if (op1 == "<" && op2 == "<=")
-            res = -sign(value1 - (value2 + 1));
+            res = sign(value1 - (value2 + 1));
         else if (op1 == "<=" && op2 == "<")
-            res = -sign((value1 + 1) - value2);
+            res = sign((value1 + 1) - value2);
     }
     return res * (isAnd == equal ? 1 : -1);
 }
